@@ -344,4 +344,22 @@ theorem ssq2_loop_spec (v w : Nat → Rat) (m : Nat) :
     obtain ⟨k0, k1, k2, _, _⟩ := ssqStep_inv _ (w m) _ g0 g1 g2
     refine ⟨k0, k1, by rw [k2, Finset.sum_range_succ]; ring⟩
 
+/-! ### index loops over `getD` are folds over the array -/
+
+theorem loop_list {α β : Type} (l : List α) (d : α) (f : β → α → β) (b : β) (n : Nat) (hn : n ≤ l.length) :
+    loop n (fun t i => f t (l.getD i d)) b = (l.take n).foldl f b := by
+  induction n with
+  | zero => simp [loop_zero]
+  | succ n ih =>
+    have hlt : n < l.length := by omega
+    rw [loop_succ, ih (by omega), List.take_add_one, List.foldl_append]
+    simp [List.getD, List.getElem?_eq_getElem hlt]
+
+theorem loop_getD_eq_foldl {α β : Type} (x : Array α) (d : α) (f : β → α → β) (b : β) :
+    loop x.size (fun t i => f t (x.getD i d)) b = x.foldl f b := by
+  have h1 := loop_list x.toList d f b x.size (by simp)
+  have h2 : List.take x.size x.toList = x.toList := by simp
+  rw [h2, Array.foldl_toList] at h1
+  simpa using h1
+
 end Slu.Cblas
